@@ -112,9 +112,11 @@ def gen_cases(pid, rng, tier, kinds):
             cases += [gen.gen_reinsert_case(rng, kind, 8500 + i) for i in range(60 if tier == "quick" else 600)]
         if pid in ("C16", "C05", "C06", "C01"):
             cases += [gen.gen_window_case(rng, kind, 8700 + i) for i in range(50 if tier == "quick" else 500)]
+        if pid in ("C03", "C04", "C12", "C05", "C10", "C16", "C01"):
+            cases += [gen.gen_excess_case(rng, kind, 8900 + i) for i in range(50 if tier == "quick" else 500)]
         extra = 4 if tier == "quick" else 30
         if pid in ("C03", "C05", "C06", "C08", "C10", "C11", "C01", "C16"):
-            nme = extra // 2 if pid not in ("C05", "C06") else extra * 2
+            nme = extra // 2 if pid not in ("C05", "C06") else (extra * 8 if kind == "unsync" else extra * 2)
             cases += [gen.gen_mass_expiry(rng, kind, 9000 + i, 100 if kind == "unsync" else 500) for i in range(nme)]
         if pid in ("C08", "C13", "C10"):
             cases += [gen.gen_bigsketch(rng, kind, 9500 + i) for i in range(extra // 2)]
@@ -216,6 +218,7 @@ def run(pid, tier, seed, model_ok, replay):
 
 
 def run_cases(pid, oracle, project, cases, model_ok, max_report=3):
+    O.STATS.clear()
     impl = C.run_impl(cases)
     model = C.run_model(cases) if model_ok else {}
     violations, disagreements = [], []
@@ -269,6 +272,7 @@ def run_cases(pid, oracle, project, cases, model_ok, max_report=3):
         dist["lengths"]["<=10" if L <= 10 else "<=40" if L <= 40 else "<=150" if L <= 150 else ">150"] += 1
         if hit and rem:
             nontrivial.add("\n".join(lines))
+    dist["oracle_decisions"] = dict(sorted(O.STATS.items()))
     # directed search: the correspondence broke but no generated history violates the property.
     # Look for a concrete failing input near the disagreeing histories: the same history without
     # capacity pressure, and the history cut right after the disagreement followed by probes of
